@@ -59,7 +59,10 @@ class C19(F.Spec):
             # place the wrap before / inside / after the scenario (never exactly on a stamp value 0)
             boots = [777, (W - rng.randint(1, max(total, 2))) | 1, (W - total - 5000001) | 1]
             traces = []
-            for b in boots:
+            k = 0
+            while k < len(boots):
+                b = boots[k]
+                k += 1
                 o2 = ["boot %d" % b] + ops[1:]
                 rc, lines, err = C.run_lines([exe], "\n".join(o2) + "\n")
                 if rc != 0:
@@ -68,6 +71,12 @@ class C19(F.Spec):
                     break
                 keep = [x for x in lines if x.startswith(("GPIO ", "TRIGFIRE ", "SETRELAY "))]
                 traces.append(keep)
+                if k == 1:
+                    # ... and shortly behind an output being energised: the stamps taken there (start / stop times) are then compared
+                    # with readings from behind the wrap within the start and stop delays
+                    ons = [int(x.split()[3]) for x in keep if x.startswith("GPIO ") and x.split()[2] == "1" and x.split()[3].isdigit()]
+                    for t_on in (rng.sample(ons, min(3, len(ons))) if ons else []):
+                        boots.append((W - (t_on + rng.choice([1000, 50000, 100000, 300000, 450000, 900000]))) % W | 1)
             if not traces:
                 continue
             if any(x.startswith("GPIO ") for x in traces[0]):
@@ -80,10 +89,48 @@ class C19(F.Spec):
                                               b, k, tr[k] if k < len(tr) else None, traces[0][k] if k < len(traces[0]) else None)),
                                 ["boot %d" % b] + ops[1:]))
                     break
+        from props.c03 import set_value as _sv
+        # short actuations with the wrap inside the start / stop delays: a short press on a shutter button (the motor keeps running
+        # for its minimum time), a stop and a reversal shortly after a start - for every instant an output was energised the wrap
+        # is placed 20, 100, 200 and 400 ms behind it
+        if not out:
+            for i in range(4 if tier == "quick" else 30):
+                pin = rng.choice([9, 10])
+                ops = ["board rs1", "motor 0 100 3000 3000", "init", "rstimes 0 5000 5000 0 0", "rspos 0 5000 0", "rslog 1", "adv 1000"]
+                for _ in range(rng.randint(1, 3)):
+                    if rng.random() < .6:
+                        # (the board's shutter buttons act on release: a click starts the motor, the next click stops it)
+                        ops += ["input %d 0" % pin, "adv 150", "input %d 1" % pin, "adv %d" % rng.choice([30, 100, 200]),
+                                "input %d 0" % pin, "adv %d" % rng.choice([120, 150, 200]), "input %d 1" % pin]
+                    else:
+                        ops += ["msg 110 " + _sv(1, 0, 0, bytes([rng.choice([1, 2])] + [0] * 7)).hex(), "adv %d" % rng.choice([100, 250, 400]),
+                                "msg 110 " + _sv(1, 0, 0, bytes([rng.choice([0, 1, 2])] + [0] * 7)).hex()]
+                    ops += ["adv 800", "adv 1500"]
+                    pin = 19 - pin
+                ref = None
+                boots = [777]
+                k = 0
+                while k < len(boots) and not out:
+                    o2 = ["boot %d" % boots[k]] + ops
+                    k += 1
+                    rc, lines, err = C.run_lines([exe], "\n".join(o2) + "\n")
+                    if rc != 0:
+                        out.append((F.Finding("crash", "rc=%s %s" % (rc, err[-600:])), o2))
+                        break
+                    keep = [x for x in lines if x.startswith(("GPIO ", "TRIGFIRE ", "SETRELAY "))]
+                    if ref is None:
+                        ref = keep
+                        nt += 1 if keep else 0
+                        for x in keep:
+                            if x.startswith("GPIO ") and x.split()[2] == "1":
+                                boots += [(W - (int(x.split()[3]) + d)) % W | 1 for d in (20000, 100000, 200000, 400000)]
+                    elif keep != ref:
+                        j = next((j for j in range(min(len(keep), len(ref))) if keep[j] != ref[j]), min(len(keep), len(ref)))
+                        out.append((F.Finding("boot-dependent-behaviour", "short actuation: trace with boot=%d differs from boot=777 at event %d: %s vs %s"
+                                              % (boots[k - 1], j, keep[j] if j < len(keep) else None, ref[j] if j < len(ref) else None)), o2))
         # frames sent: a shutter that moves for several seconds with the wrap in the middle of the move reports as often as with
         # the wrap far away.  (Frame contents are not compared: the phase of the 200 ms report window against the boot value is
         # set by the first report - the stamp starts as 0 - so positions are sampled at instants up to 200 ms apart.)
-        from props.c03 import set_value as _sv
         import collections
 
         def frame_counts(lines):
